@@ -305,3 +305,15 @@ func (e *Engine) pathString(p []ssa.Instruction) string {
 	}
 	return strings.Join(parts, " -> ")
 }
+
+// MinKeys is a vacuity guard by key prefix: at least n obligations whose key
+// starts with prefix must have been generated.
+func (r *Report) MinKeys(prefix string, n int) {
+	got := 0
+	for _, o := range r.Obls {
+		if strings.HasPrefix(o.Key, prefix) {
+			got++
+		}
+	}
+	r.MinInstances("obligations "+prefix+"*", got, n)
+}
